@@ -53,6 +53,10 @@ RULE = ("server options as the application passes them: max_body_size 0 / 1..409
         "(whole and byte-wise) and the exact 65536 / 100 MB / max_buffer_size boundaries; non-trivial = a body or header "
         "block within 2 bytes of its limit or beyond it; distinct by canonical JSON")
 EXHAUSTIVE = {"quick": False, "thorough": False}
+CLAUSE_CAVEATS = [
+    "the 'refused and closed' lemmas (cl_oversize_rejected, chunk_oversize_rejected, header_oversize_closed, …) are one-step statements about the machine in an arbitrary state; the run-level statements are delivered_le_limit and limits_monotone",
+    'the gzip delegate machine is proved on its own (gz_delivered_le_limit) and is composed with the connection machine only by the tie',
+]
 CLAUSES = {
     "header block larger than max_header_size is refused and the connection closed": "header_oversize_closed, header_unterminated_closed, header_at_limit_ok",
     "declared body larger than max_body_size (or the per-request override) refused": "cl_oversize_rejected, oversize_body_closed, cl_at_limit_ok",
